@@ -53,8 +53,6 @@ TRIAGE = [
      "ak.to_arrow of option[record] emits struct children flagged 'not null' that carry a validity bitmap with nulls "
      "under the null parents; pyarrow >= 15 refuses to write such a column to Parquet.  Reproducer: "
      "ak.to_parquet(ak.Array([[{'x': 0.0, 'y': []}, {'x': 2.2, 'y': None}], [], [{'x': 3.3, 'y': [1]}, None]]), path)"),
-    (r"test_0645-", r"device_buffer has been deprecated", "env",
-     "jax 0.11 removed Array.device_buffer, which NumpyArray.from_jax / Index.from_jax (src/python/*.cpp) read"),
     (r"test_0688-|test_0871-", r"'UnmaskedArray' object has no attribute 'field'", "env",
      "pyarrow 25: ParquetFile.read_row_group(columns=['x.list.item.y']) returns the partially read struct as "
      "nullable although the file schema says 'not null', so from_arrow wraps the RecordArray in an UnmaskedArray "
@@ -62,7 +60,8 @@ TRIAGE = [
     (r"test_0793-.*::test_numpyarray_grad_3$", r"iteration over a 0-d array", "env",
      "jax 0.11: jax.jvp returns a 0-d jax Array here and ak.to_list iterates it"),
     (r"test_0793-.*::test_recordarray_[456]$", r"At index 0 diff", "env",
-     "jax 0.11 computes in float32 unless jax_enable_x64 is set; the expected values are float64"),
+     "per-file isolation: the expected float64 values need jax_enable_x64, which upstream gets from "
+     "test_0645-*.py having run earlier in the same pytest process (run together they pass)"),
     (r"test_0813-.*::test$", r"\[0, 0, 0\] != \[True, True, True\]", "env",
      "NumPy 2: casting the string '0' to bool is True (non-empty), NumPy 1 parsed it as the integer 0 -> False "
      "(ak.zeros_like(strings, dtype=bool) goes through strings_astype)"),
